@@ -44,6 +44,7 @@ use crate::{
         rr::{
             DNSClass, LowerName, Name, RData, Record, RecordRef, RecordType, RrKey, SerialNumber,
         },
+        serialize::binary::BinEncodable,
     },
     runtime::{RuntimeProvider, Time},
     xfer::{FirstAnswer, dns_handle::DnsHandle},
@@ -1672,15 +1673,21 @@ impl<'a> RrsetVerificationContext<'a> {
         self.key.name.hash(&mut hasher);
         self.key.record_type.hash(&mut hasher);
 
-        for rec in self.rrset.records.iter() {
+        for rec in self
+            .rrset
+            .records
+            .iter()
+            .chain(self.rrset.signatures.iter())
+        {
             rec.name.hash(&mut hasher);
             rec.dns_class.hash(&mut hasher);
-            rec.data.hash(&mut hasher);
-        }
-        for rec in self.rrset.signatures.iter() {
-            rec.name.hash(&mut hasher);
-            rec.dns_class.hash(&mut hasher);
-            rec.data.hash(&mut hasher);
+            // `Name` hashes case-insensitively, but the case of names inside the RDATA is part of
+            // the signed data for most record types (RFC 4034 section 6.2, RFC 6840 section 5.1),
+            // so the case-preserving encoding of the RDATA goes into the key.
+            match rec.data.to_bytes() {
+                Ok(bytes) => bytes.hash(&mut hasher),
+                Err(_) => rec.data.hash(&mut hasher),
+            }
         }
 
         ValidationCacheKey(hasher.finish())
